@@ -39,13 +39,15 @@ tvars == <<S, l, skip, nbad>>
 SeqSet(s) == {s[i] : i \in DOMAIN s}
 
 \* status o observed on the real shell vs status m of the model
-MatchObs(m, o) == IF m = NZ THEN o # 0 ELSE m = o
+MatchObs(m, o) == IF m = NZ THEN o # 0 ELSE IF m = KS THEN o > 128 ELSE m = o
 
 ProbeOK(T, p, pr) ==
   LET c == Cmd(T, p) IN
     /\ pr.t = c.t
     /\ MatchObs(T.q[p], pr.st)
     /\ pr.b = (IF c.b THEN T.bang[p] ELSE 0)
+
+AtKill(T, p) == ~T.tb[p] /\ T.ph[p].n = "cmd" /\ ~AtEnd(T, p) /\ Cmd(T, p).k = "kill"
 
 \* B = [pr: probes left, fk: forks left, rp: reaps left, ex: termination left, xs]
 RECURSIVE Run(_, _, _)
@@ -54,6 +56,10 @@ Run(T, p, B) ==
   ELSE IF \E c \in B.rp : Collectable(T, p, c)
   THEN LET c == CHOOSE c \in B.rp : Collectable(T, p, c)
        IN Run(DoCollect(T, p, c), p, [B EXCEPT !.rp = @ \ {c}])
+  ELSE IF AtKill(T, p) /\ KillTarget(T, p) \in B.kl /\ T.tb[KillTarget(T, p)] /\ ~T.tp[KillTarget(T, p)]
+  THEN \* the target was killed on the spot: its (invisible) first step, which
+       \* unblocks the signal, has been taken before
+       Run(Apply(T, KillTarget(T, p), 0), p, B)
   ELSE LET k == Kind(T, p)
            stop == [S |-> T, B |-> B]
        IN CASE k = "blocked" -> stop
@@ -72,11 +78,14 @@ Run(T, p, B) ==
                  THEN LET c == CHOOSE c \in ChangedKids(T, p) \cap B.rp : TRUE
                       IN Run(Apply(T, p, c), p, [B EXCEPT !.rp = @ \ {c}])
                  ELSE stop
+            [] k = "kill" ->
+                 IF KillTarget(T, p) \in B.kl
+                 THEN Run(Apply(T, p, 0), p, [B EXCEPT !.kl = @ \ {KillTarget(T, p)}]) ELSE stop
             [] k = "exit" ->
-                 IF B.ex /\ MatchObs(T.q[p], B.xs)
+                 IF B.ex /\ MatchObs(NextXs(T, p), B.xs)
                  THEN Run(Apply(T, p, 0), p, [B EXCEPT !.ex = FALSE]) ELSE stop
 
-Consumed(B) == B.pr = <<>> /\ B.fk = <<>> /\ B.rp = {} /\ ~B.ex
+Consumed(B) == B.pr = <<>> /\ B.fk = <<>> /\ B.rp = {} /\ B.kl = {} /\ ~B.ex
 
 \* the defect shape of virtual.rs::wait(-1): no changed child, the child with
 \* the highest pid is dead and reaped, another child is still alive
@@ -93,7 +102,7 @@ Diag(T, p, B, why) ==
    mode |-> IF p \in Pids THEN T.ph[p].m ELSE "",
    q |-> IF p \in Pids THEN T.q[p] ELSE 0,
    shape |-> IF p \in Pids /\ T.st[p] = "Run" THEN LastChildDead(T, p) ELSE FALSE,
-   left |-> [pr |-> B.pr, fk |-> B.fk, rp |-> B.rp, ex |-> B.ex, xs |-> B.xs],
+   left |-> [pr |-> B.pr, fk |-> B.fk, rp |-> B.rp, kl |-> B.kl, ex |-> B.ex, xs |-> B.xs],
    inv |-> [reap |-> ReapOnce(T), status |-> StatusTrue(T), fg |-> NoFgLeft(T), jobs |-> JobsSound(T)]]
 
 Bad(e, d) == PrintT(ToJson([bad |-> l, run |-> e.run, d |-> d]))
@@ -107,7 +116,8 @@ TReset ==
 
 TBatch ==
   /\ Ev.ev = "batch" /\ ~skip
-  /\ LET B0 == [pr |-> Ev.probes, fk |-> Ev.forks, rp |-> SeqSet(Ev.reaps), ex |-> Ev.ex, xs |-> Ev.xs]
+  /\ LET B0 == [pr |-> Ev.probes, fk |-> Ev.forks, rp |-> SeqSet(Ev.reaps), kl |-> SeqSet(Ev.kills),
+                ex |-> Ev.ex, xs |-> Ev.xs]
          R == Run(S, Ev.actor, B0)
          ok == Ev.odd = <<>> /\ Consumed(R.B) /\ R.S.err = "" /\ Safe(R.S)
      IN IF ok THEN S' = R.S /\ skip' = FALSE /\ nbad' = nbad
@@ -129,7 +139,7 @@ TableOK(T, tab) ==
 
 TEnd ==
   /\ Ev.ev = "end" /\ ~skip
-  /\ LET B0 == [pr |-> <<>>, fk |-> <<>>, rp |-> {}, ex |-> TRUE, xs |-> Ev.status]
+  /\ LET B0 == [pr |-> <<>>, fk |-> <<>>, rp |-> {}, kl |-> {}, ex |-> TRUE, xs |-> Ev.status]
          R == IF Ev.outcome = "completed" THEN Run(S, Base, B0) ELSE [S |-> S, B |-> B0]
          ok == /\ Ev.outcome = "completed"
                /\ Consumed(R.B) /\ R.S.err = ""
